@@ -114,6 +114,98 @@ TEMPLATES = {
 }
 
 
+# programs written for this check (added to the shared corpus): shapes that the slot classes above need in quantity
+EXTRA_PROGRAMS = [
+    # mixed boolean operators, both nestings, as operands of each other
+    '''\
+ok = (a or b) and c
+ko = (a and b) or c
+both = (p or q) and (r or s)
+deep = ((a or b) and c) or (d and (e or f))
+if (x or y) and not z:
+    flag = (m and n) or k
+while (u and v) or w:
+    u = (v or w) and u
+res = left if (t1 or t2) else (t3 and t4)
+''',
+    # calls with every argument kind, nested calls, keywords before *args
+    '''\
+r1 = f(a, b, *rest, key=1, **extra)
+r2 = g(h(x, k=2), *i(y), z=j(w, *v))
+r3 = obj.method(first, second=2)(third)(fourth, fifth=5)
+r4 = call(a, key=value, *rest, **extra)
+r5 = outer(inner(innermost(1, 2), 3), last=inner(4))
+
+
+class C(Base, metaclass=M, **kw):
+    r6 = build(x, y=1)
+''',
+    # containers: lists / tuples / dicts of every length, nested, with unpacking
+    '''\
+e0 = []
+e1 = [a]
+e2 = [a, b]
+e5 = [a, [b, [c, d]], (e, f), {g: h}, *i]
+t0 = ()
+t1 = (a,)
+t3 = (a, (b, c), [d])
+d0 = {}
+d1 = {a: 1}
+d4 = {a: 1, **b, 'c': [x, y], (1, 2): {k: v, **w}}
+nested = {k1: {k2: {k3: [v1, v2, v3]}}}
+''',
+    # statements in every block position, comments around them, one-line blocks
+    '''\
+def fn(seq, out):
+    # leading comment of the loop
+    for item in seq:  # trailing comment
+        if item:
+            out.append(item)  # inner
+        elif item is None:
+            continue
+        else:
+            return out
+    else:
+        out = None
+    # comment before with
+    with open(p) as fh, lock:
+        data = fh.read()
+        # comment inside
+        total += len(data)
+    while out: out.pop(); total -= 1
+    if total: return total
+    raise ValueError(total) from None
+
+
+def gen(n):
+    i = 0
+    while i < n:
+        got = yield i
+        i += got or 1
+    return (yield)
+''',
+    # assignments, augmented assignments, subscripts, attributes, comparisons, conditional expressions
+    '''\
+x = y = a.b.c
+m[i][j] = n.o[p]
+k.attr = q[1:2, ::3]
+cnt += step * 2
+tbl[key] -= other.val
+small = a < b
+chain = a < b <= c
+pick = u if v else w
+pick2 = (u if v else w) if (x if y else z) else (p if q else r)
+neg = -a.b + c.d * e.f
+idx = data[lo + 1][hi - 1]
+''',
+]
+
+
+def programs():
+    from corpus.programs import PROGRAMS
+    return list(PROGRAMS) + EXTRA_PROGRAMS
+
+
 def template_tops(src: str, cat: str):
     if cat == 'expr':
         return [ast.parse(src, mode='eval').body]
@@ -123,8 +215,9 @@ def template_tops(src: str, cat: str):
 # ----------------------------------------------------------------------------------------------------------------------
 # projection of one state
 
+_ELSE = __import__('re').compile(r'else\s*:\s*(#.*)?')
 _SOFT = {'COMMENT', 'LPAR', 'RPAR'}
-_LAYOUT = {'NL', 'NEWLINE', 'INDENT', 'DEDENT', 'SEMI'}
+_LAYOUT = {'NL', 'INDENT', 'DEDENT', 'SEMI'}
 
 
 class Recorder:
@@ -164,11 +257,11 @@ class Recorder:
                 sc = len(lines[sr - 1][:sc].encode('utf8'))
             if er - 1 < len(lines):
                 ec = len(lines[er - 1][:ec].encode('utf8'))
-            tl.append([self._tid((ty, s)), 2 if ty in _LAYOUT else 1 if ty in _SOFT else 0, sr, sc, er, ec])
+            tl.append([self._tid((ty, s)), 3 if ty == 'NEWLINE' else 2 if ty in _LAYOUT else 1 if ty in _SOFT else 0, sr, sc, er, ec])
         ll = []
         for ln in lines:
             st = ln.strip()
-            ll.append([self._lid(ln), 1 if not st else 2 if st.startswith('#') else 0])
+            ll.append([self._lid(ln), 1 if not st else 2 if st.startswith('#') else 3 if _ELSE.fullmatch(st) else 0])
         return {'liveS': live_s, 'liveP': live_p, 'srcOk': src_ok, 'srcS': src_s, 'srcP': src_p,
                 'tokOk': tok_ok, 'toks': tl, 'lines': ll, '_src': src}
 
@@ -180,7 +273,7 @@ def _path(root, node):
     return tuple((p.name, p.idx) for p in root.child_path(node))
 
 
-def match_facts(root, m) -> dict:
+def match_facts(root, m, tree=None) -> dict:
     """FSTMatch -> {'p': path, 'caps': {tag: {'t','cat','el'}}}; paths are tuples of (field, idx|None)."""
     from fst import FST
     from fst.view import FSTView
@@ -236,15 +329,21 @@ def match_facts(root, m) -> dict:
                 caps[tag] = {'t': 'seq', 'cat': cats.pop(), 'el': els}
         else:
             caps[tag] = {'t': 'other', 'cat': 'other', 'el': []}
-    return {'p': _path(root, m.matched), 'caps': caps}
+    p0 = _path(root, m.matched)
+    return {'p': p0, 'caps': caps, 'ml': True if tree is None else _has_ml_docstr(ref.get(tree, p0))}
 
 
 def _jpath(p):
     return [{'n': f, 'i': 1 if i is None else i + 1} for f, i in p]
 
 
+def _has_ml_docstr(node) -> bool:
+    return any(isinstance(n, ast.Expr) and isinstance(n.value, ast.Constant) and isinstance(n.value.value, str)
+               and n.value.end_lineno > n.value.lineno for n in ast.walk(node))
+
+
 def jmatch(mf) -> dict:
-    return {'p': _jpath(mf['p']),
+    return {'p': _jpath(mf['p']), 'ml': mf.get('ml', False),
             'caps': [{'tag': g, 't': c['t'], 'cat': c['cat'],
                       'el': [[{'h': comp is not None, 'p': _jpath(comp or ())} for comp in el] for el in c['el']]}
                      for g, c in sorted(mf['caps'].items())]}
@@ -291,12 +390,13 @@ def run_case(rec: Recorder, tid: int, src: str, pat_id: str, tmpl_src: str, cat:
     pats = pats or patterns()
     pat = pats[pat_id]()
     f0 = FST(src, 'exec')
-    S = [match_facts(f0, m) for m in f0.search(pat, nested=True)]
+    tree0 = try_parse(src)
+    S = [match_facts(f0, m, tree0) for m in f0.search(pat, nested=True)]
     if not S:
         return None
     T = template_tops(tmpl_src, cat)
     t_sids = [rec.tab.sid(c) for c in T]
-    cfg = dict(cfg, shapeOnly=SHAPE_ONLY)
+    cfg = dict(cfg, shapeOnly=SHAPE_ONLY, docstr=cfg.get('docstr', True))
 
     f = FST(src, 'exec')
     init = rec.state(f)
@@ -320,7 +420,7 @@ def run_case(rec: Recorder, tid: int, src: str, pat_id: str, tmpl_src: str, cat:
             raise Runaway()
         pre = rec.state(f)
         mm = matched.match(pat)
-        mf = match_facts(f, mm) if mm is not None else {'p': _path(f, matched), 'caps': {}}
+        mf = match_facts(f, mm, try_parse(pre['_src'])) if mm is not None else {'p': _path(f, matched), 'caps': {}, 'ml': True}
         cur['pre'] = (pre, mf, mm is not None, matched is cur['last'] and cfg['loop'] != 0)
         return False
 
@@ -332,7 +432,11 @@ def run_case(rec: Recorder, tid: int, src: str, pat_id: str, tmpl_src: str, cat:
                       'hasRef': has_ref, 'expValid': valid, 'expS': exp_s, 'post': post})
         cur['last'] = replaced
 
-    kw = dict(count=cfg['count'], loop=cfg['loop'] if cfg['loop'] else False, on=cfg['on'], back=cfg['back'])
+    if not cfg.get('docstr', True):
+        kw_opt = {'docstr': False}
+    else:
+        kw_opt = {}
+    kw = dict(kw_opt, count=cfg['count'], loop=cfg['loop'] if cfg['loop'] else False, on=cfg['on'], back=cfg['back'])
     if cfg['cb']:
         kw.update(callback=cb, callback_after=cba)
     repl = FST(tmpl_src, 'exec' if cat == 'stmt' else 'expr') if repl_as_fst else tmpl_src
@@ -376,6 +480,8 @@ def batch(rec: Recorder, traces: list) -> dict:
     b.pop('ttab', None)
     b['listf'] = ref.LIST_FIELDS
     b['kcat'] = ref.KIND_CAT
+    b['tokElse'] = rec._tok.get(('NAME', 'else'), 0)
+    b['tokColon'] = rec._tok.get(('COLON', ':'), 0)
     b['traces'] = [strip_private(t) for t in traces]
     return b
 
